@@ -691,7 +691,7 @@ class Interp:
                 return Ratio(ln * rn, ld * rd) if isinstance(e.op, ast.Mult) else Ratio(ln * rd, ld * rn)
             if isinstance(l, SymObject) and isinstance(e.op, ast.Mult) and hasattr(l, "mul"):
                 return l.mul(r)
-            if self.generic and self.depth < 6 and (isinstance(l, TensorSym) or isinstance(r, TensorSym)) and type(e.op) in _DUNDERS:
+            if self.generic and self.depth < 9 and (isinstance(l, TensorSym) or isinstance(r, TensorSym)) and type(e.op) in _DUNDERS:
                 # arithmetic on a symbolic tensor: the operator method of the most derived library class among its kinds, the reflected one for `scalar OP tensor`
                 fwd, rev = _DUNDERS[type(e.op)]
                 recv_, arg_, nm_ = (l, r, fwd) if isinstance(l, TensorSym) else (r, l, rev)
@@ -699,7 +699,7 @@ class Interp:
                 if owners:
                     own = max(owners, key=lambda c: len(self.prog.mro(c)))
                     return self.run_method(own.methods[nm_], recv_, [arg_], {})
-            if isinstance(l, TensorSym) and isinstance(e.op, ast.Mult) and self.depth < 5:
+            if isinstance(l, TensorSym) and isinstance(e.op, ast.Mult) and self.depth < 9:
                 tcls = self.prog.find_cls("Tensor")
                 m_ = self.prog.lookup(tcls, "__mul__") if tcls is not None else None
                 if m_ is not None:
@@ -779,18 +779,18 @@ class Interp:
                 if e.attr in base._attrs:
                     return base._attrs[e.attr]
                 m_ = self.prog.lookup(base._cls, e.attr)
-                if m_ is not None and m_.is_property and self.depth < 5:
+                if m_ is not None and m_.is_property and self.depth < 9:
                     return self.run_method(m_, base, [], {})
                 return Opaque(f"attribute {e.attr} of the object")
             if isinstance(base, SymObject) and hasattr(base, e.attr):
                 return getattr(base, e.attr)
-            if isinstance(base, SymObject) and not isinstance(base, TensorSym) and self.generic and self.depth < 5 and getattr(base, "kinds", None):
+            if isinstance(base, SymObject) and not isinstance(base, TensorSym) and self.generic and self.depth < 9 and getattr(base, "kinds", None):
                 # a property of the library class the object stands for (LineTensor.direction ...), most derived class first: interpreted
                 owners = [c for c in self.prog.classes.values() if c.name in base.kinds and e.attr in c.methods and c.methods[e.attr].is_property]
                 if owners:
                     own = max(owners, key=lambda c: len(self.prog.mro(c)))
                     return self.run_method(own.methods[e.attr], base, [], {})
-            if isinstance(base, TensorSym) and self.depth < 5:
+            if isinstance(base, TensorSym) and self.depth < 9:
                 # a property the library defines in exactly one class (covariant_tensor / contravariant_tensor of LineTensor ...): interpreted
                 owners = [c for c in self.prog.classes.values() if e.attr in c.methods and c.methods[e.attr].is_property]
                 if len(owners) == 1:
@@ -969,7 +969,7 @@ class Interp:
             return Opaque("type(...)(...) of an object that is not symbolic")
         name = f.attr if isinstance(f, ast.Attribute) else f.id if isinstance(f, ast.Name) else ""
         if (isinstance(f, ast.Attribute) and isinstance(f.value, ast.Call) and isinstance(f.value.func, ast.Name) and f.value.func.id == "super" and not f.value.args
-                and self.owner is not None and name not in ("__init__", "__new__") and self.depth < 6):
+                and self.owner is not None and name not in ("__init__", "__new__") and self.depth < 9):
             # super().name(...): the next definition along the MRO of the class whose method is running, on the same receiver
             nxt = next((c for c in self.prog.mro(self.owner)[1:] if name in c.methods), None)
             recv_name = next(iter(env), None)
@@ -997,17 +997,20 @@ class Interp:
                 if name in self.hooks:
                     return self.hooks[name]([recv] + [self.ev(a_, env) for a_ in e.args], {})
                 m_ = self.prog.lookup(recv._cls, name)
-                if m_ is not None and self.depth < 5:
+                if m_ is not None and self.depth < 9:
                     return self.run_method(m_, recv, [self.ev(a_, env) for a_ in e.args], {k_.arg: self.ev(k_.value, env) for k_ in e.keywords if k_.arg})
                 return Opaque(f"method {name}")
             if isinstance(recv, SymObject) and hasattr(recv, name) and not (name.startswith("__") and not callable(getattr(recv, name, None))):
                 return getattr(recv, name)(*[self.ev(a_, env) for a_ in e.args])
-            if isinstance(recv, TensorSym) and self.generic and self.depth < 6 and getattr(recv, "kinds", None):
+            if isinstance(recv, TensorSym) and self.generic and self.depth < 9 and getattr(recv, "kinds", None):
                 # a method of the library class the tensor stands for, most derived class first: interpreted on the symbolic receiver
                 owners = [c for c in self.prog.classes.values() if c.name in recv.kinds and name in c.methods and not c.methods[name].is_property]
                 if owners:
                     own = max(owners, key=lambda c: len(self.prog.mro(c)))
                     return self.run_method(own.methods[name], recv, [self.ev(a_, env) for a_ in e.args], {k_.arg: self.ev(k_.value, env) for k_ in e.keywords if k_.arg})
+        if isinstance(f, ast.Attribute) and isinstance(f.value, ast.Name) and isinstance(env.get(f.value.id), Opaque) and name in self.hooks:
+            # x.join(y) on a local that is not read: the hook would be handed the arguments without the receiver
+            return Opaque(f"method {name} of a value that is not read")
         if name == "cast" and len(e.args) == 2 and not e.keywords:
             return self.ev(e.args[1], env)  # typing.cast returns its second argument
         if self.complex_mode and name in ("conj", "conjugate") and (is_np and len(e.args) == 1 or (isinstance(f, ast.Attribute) and not is_np and not e.args)):
@@ -3284,7 +3287,7 @@ def _called_on_point_class() -> bool:
 
 
 def rule_metric_constructions(run: Run, prog: Program, part: str = "metric") -> int:
-    if part == "midpoint":
+    if part in ("midpoint", "circumcenter"):
         pass
     elif part == "harmonic":
         run.rule("E19.harm", "harmonic_set(a, b, c) in the plane for symbolic a, b and c = alpha a + beta b, interpreted through the complete-quadrilateral construction "
@@ -3407,6 +3410,72 @@ def rule_metric_constructions(run: Run, prog: Program, part: str = "metric") -> 
             run.add("E19.mid", fn_m.short, label, VIOLATION, f"raises {r_.name} for end points in general position", fn_m.loc)
         except (Unknown, NotPolynomial, RecursionError, KeyError, IndexError, TypeError, AttributeError) as ex:
             run.add("E19.mid", fn_m.short, label, UNDECIDED, f"not read: {type(ex).__name__}: {str(ex)[:100]}", fn_m.loc)
+        return 1
+    if part == "circumcenter":
+        run.rule("E19.circ", "Triangle.circumcenter in the plane for symbolic vertices given by arbitrary representatives, interpreted through the midpoints of two edges "
+                             "(harmonic_set with a free auxiliary point), the perpendiculars of the supporting lines through them and their meet: the returned point has the "
+                             "same squared distance from all three vertices")
+        tri = prog.find_cls("Triangle")
+        seg = prog.find_cls("SegmentTensor")
+        fn_c = prog.lookup(tri, "circumcenter") if tri else None
+        label = "circumcenter of a triangle of the plane"
+        if fn_c is None or seg is None:
+            run.add("E19.circ", "Triangle.circumcenter", label, UNDECIDED, "Triangle.circumcenter not found", "")
+            return 0
+        fn_c = prog.body_of(fn_c)
+        vs = [obj(nm, 3, True) for nm in "abc"]
+        it = make_interp()
+        free_pt = obj("o", 3, True)
+        inner_join = it.hooks["join"]
+
+        def join_gp2(args_, kw_):
+            got = inner_join(args_, kw_)
+            if isinstance(got, TensorSym):
+                got.__dict__["general_point"] = free_pt
+            return got
+        it.hooks["join"] = join_gp2
+        # the midpoints of the edges by their contract b_w a + a_w b, which E19.mid proves for the property as it stands (for every auxiliary point): interpreting
+        # harmonic_set twice more inside this construction only multiplies the size of the polynomials
+        scratch_mid = Run(prop=run.prop, quiet=True, write_evidence=False)
+        rule_metric_constructions(scratch_mid, prog, part="midpoint")
+        if not any(o_.rule == "E19.mid" and o_.verdict == PROVEN for o_ in scratch_mid.obligations):
+            run.add("E19.circ", fn_c.short, label, UNDECIDED, "Segment.midpoint is not proven on this tree (E19.mid): its contract cannot be used", fn_c.loc)
+            return 1
+        try:
+            edges = []
+            for i in range(3):
+                u, v = vs[i], vs[(i + 1) % 3]
+                ln = join_gp2([u, v], {})
+                ln.__dict__["dim"] = 2
+                uw, vw = u.array.data[(2,)], v.array.data[(2,)]
+                mid = TensorSym(Table((3,), {(k,): vw * u.array.data[(k,)] + uw * v.array.data[(k,)] for k in range(3)}), 1, 0)
+                mid.kinds = kinds_for(mid, 3)
+                edges.append(ObjSym(seg, _line=ln, vertices=[u, v], dim=2, free_indices=0, midpoint=mid))
+            me = ObjSym(tri, edges=edges, _plane=None, dim=2, free_indices=0)
+            res = it.run_method(fn_c, me, [], {})
+            if not isinstance(res, TensorSym) or not isinstance(res.array, Table) or res.array.shape != (3,):
+                raise Unknown(f"the result is not read ({getattr(res, 'why', type(res).__name__)[:80]})")
+            m = [res.array.data[(i,)] for i in range(3)]
+            if all(zero_mod(x, it.rules) for x in m):
+                run.add("E19.circ", fn_c.short, label, VIOLATION, "the result vanishes identically", fn_c.loc)
+                return 1
+
+            # equidistant from the vertices <=> on the perpendicular bisector of every edge: (2 u_w v_w M - M_w (v_w u + u_w v)) . (u_w v - v_w u) = 0 in the
+            # affine coordinates - three conditions of low degree instead of squared distances
+            def on_bisector(u, v) -> bool:
+                ux, vx = [u.array.data[(i,)] for i in range(3)], [v.array.data[(i,)] for i in range(3)]
+                tot = LP()
+                for k in range(2):
+                    tot = tot + (LP.const(2) * ux[2] * vx[2] * m[k] - m[2] * (vx[2] * ux[k] + ux[2] * vx[k])) * (ux[2] * vx[k] - vx[2] * ux[k])
+                return zero_mod(tot, it.rules)
+            ok = all(on_bisector(vs[i], vs[(i + 1) % 3]) for i in range(3))
+            run.add("E19.circ", fn_c.short, label, PROVEN if ok else VIOLATION,
+                    "the returned point is equidistant from the three vertices for every representative of the vertices and every auxiliary point" if ok else
+                    "the returned point is not equidistant from the three vertices", fn_c.loc)
+        except RaisedIn as r_:
+            run.add("E19.circ", fn_c.short, label, VIOLATION, f"raises {r_.name} for vertices in general position", fn_c.loc)
+        except (Unknown, NotPolynomial, RecursionError, KeyError, IndexError, TypeError, AttributeError) as ex:
+            run.add("E19.circ", fn_c.short, label, UNDECIDED, f"not read: {type(ex).__name__}: {str(ex)[:100]}", fn_c.loc)
         return 1
     if part == "harmonic":
         fn_h = prog.find_func("harmonic_set")
